@@ -109,11 +109,17 @@ def run(ctx):
         ctx.case_done(tuple(lines), nontrivial=changes > 0)
     for cfg, script in CORPUS:
         add(*one_history(ctx, rng, len(script), cfg, script))
-    for _ in range(ctx.n(5000, 100000)):
-        add(*one_history(ctx, rng, rng.choice([5, 10, 20, 40, 60])))
     ctx.sample({'case': cases[0][0], 'ops': cases[0][1], 'impl': impls[0]})
-    ctx.sample({'case': cases[-1][0], 'ops': cases[-1][1][:6], 'impl': impls[-1][:6]})
-    ctx.correspond('proc', cases, impls)
+    total = ctx.n(5000, 60000)
+    done = 0
+    while done < total:             # in chunks, so that a thorough run does not hold every trace in memory
+        for _ in range(min(5000, total - done)):
+            add(*one_history(ctx, rng, rng.choice([5, 10, 20, 40, 60])))
+        done += 5000
+        if done <= 5000:
+            ctx.sample({'case': cases[-1][0], 'ops': cases[-1][1][:6], 'impl': impls[-1][:6]})
+        ctx.correspond('proc', cases, impls)
+        del cases[:], impls[:]
 
 
 def replay(ctx, data):
